@@ -225,6 +225,132 @@ def split_tree_answer(line):
     return line[3:i], line[i + 1:j], line[j + 1:]
 
 
+# ----------------------------------------------------------------------------- classifying a nesting failure
+# A polygon that tree_check finds inside one of its siblings (clause 33) or at a depth that contradicts its orientation
+# (clause 34) is a polygon whose parent is not its innermost container.  Which defect of the owner search is responsible
+# is read off the ownership state that BuildTree64 started from (harness TREE): X = the misplaced OutRec, T = the OutRec of
+# its innermost container (exact integer geometry on the output polygons), P = the parent it got; SC(A) = everything
+# CheckSplitOwner can visit starting from A's split list.
+#   container-among-own-splits      T in SC(X): the container was split off X (or is nested in such a path); the search
+#                                   only ever looks at the splits of X's owners, never at X's own
+#   owner-accepted-before-its-splits  T in SC(P): a point-less split resolved (GetRealOutRec) to P itself and P was accepted
+#                                   inside CheckSplitOwner before the remaining splits of P were tested
+#   origin-of-split-not-searched    X in SC(T): X was split off T (or absorbed such a split) but its owner chain does not
+#                                   lead to T, so T is never tested
+# Anything else keeps the plain clause key.
+NEST = 'tree.nesting.'
+
+
+def _pip2(poly, q):
+    """exact even-odd point in polygon on integer coordinates: 0 outside, 1 inside, 2 on the boundary"""
+    x, y = q
+    inside = False
+    n = len(poly)
+    for i in range(n):
+        (x1, y1), (x2, y2) = poly[i], poly[(i + 1) % n]
+        cr = (x2 - x1) * (y - y1) - (y2 - y1) * (x - x1)
+        if cr == 0 and min(x1, x2) <= x <= max(x1, x2) and min(y1, y2) <= y <= max(y1, y2):
+            return 2
+        if (y1 > y) != (y2 > y):
+            # x coordinate of the crossing compared with x, exactly
+            t = (x2 - x1) * (y - y1) - (x - x1) * (y2 - y1)
+            if (t > 0) == (y2 > y1):
+                inside = not inside
+    return 1 if inside else 0
+
+
+def _contains(outer, inner):
+    """the same test as TreeCheck.child_ok: every vertex inside or on, and a vertex or edge midpoint strictly inside"""
+    o2 = [(2 * a, 2 * b) for a, b in outer]
+    pr = [(2 * a, 2 * b) for a, b in inner] + [(inner[i][0] + inner[(i + 1) % len(inner)][0], inner[i][1] + inner[(i + 1) % len(inner)][1])
+                                                for i in range(len(inner))]
+    r = [_pip2(o2, q) for q in pr]
+    return all(v != 0 for v in r[:len(inner)]) and any(v == 1 for v in r)
+
+
+def parse_tree_answer(line):
+    """harness TREE answer -> dict(owner, pts, splits, tree=[(idx, parent)]) or None"""
+    if not line.startswith('ok N '):
+        return None
+    t = line.split()
+    n = int(t[2]); pos = 3
+    owner, pts, splits = [], [], []
+    for _ in range(n):
+        ow, hp, io, be, ns = (int(v) for v in t[pos:pos + 5])
+        owner.append(ow); pts.append(hp == 1); splits.append([int(v) for v in t[pos + 5:pos + 5 + ns]]); pos += 5 + ns
+    pos = t.index('T', pos)
+    m = int(t[pos + 1]); pos += 2
+    tree = [(int(t[pos + 2 * k]), int(t[pos + 2 * k + 1])) for k in range(m)]
+    return dict(owner=owner, pts=pts, splits=splits, tree=tree)
+
+
+def _split_closure(st, a):
+    """OutRecs (with points) that CheckSplitOwner can reach from a's split list"""
+    def real(x):
+        steps = 0
+        while x >= 0 and not st['pts'][x] and steps <= len(st['owner']):
+            x = st['owner'][x]; steps += 1
+        return x if x >= 0 and st['pts'][x] else -1
+    seen, lists, out, todo = set(), set(), set(), [a]
+    while todo:
+        x = todo.pop()
+        if x in lists:
+            continue
+        lists.add(x)
+        for s in st['splits'][x]:
+            todo.append(s)
+            r = real(s)
+            if r >= 0:
+                out.add(r); todo.append(r)
+    return out
+
+
+def classify_nesting(env, c, ct, fr, pc, rs, prec, nodes, k):
+    """nodes = [(depth, hole, nchildren, path)] of the API answer in preorder, k = the node tree_check flagged.
+    -> mechanism name or None"""
+    try:
+        sc = 10 ** prec if prec else 1
+        cc = dict(S=[[(x * sc, y * sc) for x, y in p] for p in c['S']], O=[], C=[[(x * sc, y * sc) for x, y in p] for p in c['C']])
+        q = vf.run_lines(env.exes['owner'], [tree_line(cc, ct, fr, pc, rs)], timeout=60)
+        st = parse_tree_answer(q.stdout.strip()) if q.returncode == 0 else None
+        if st is None or len(st['tree']) != len(nodes) or not (0 <= k < len(nodes)):
+            return None
+        paths = [n[3] for n in nodes]
+        cont = {j: [i for i in range(len(nodes)) if i != j and _contains(paths[i], paths[j])] for j in range(len(nodes))}
+        if not cont[k]:
+            return None
+        inner = max(cont[k], key=lambda i: len(cont[i]))
+        X, P = st['tree'][k]
+        T = st['tree'][inner][0]
+        if X < 0 or T < 0 or T == P:
+            return None
+        if T in _split_closure(st, X):
+            return 'container-among-own-splits'
+        if P >= 0 and T in _split_closure(st, P):
+            return 'owner-accepted-before-its-splits'
+        if X in _split_closure(st, T):
+            return 'origin-of-split-not-searched'
+    except Exception:
+        return None
+    return None
+
+
+def refine_keys(env, c, ct, fr, pc, rs, prec, r, codes):
+    """tree_check codes -> [(key, node index)]: clauses 33/34 at a node whose mis-nesting is explained by one of the known
+    mechanisms are reported under that mechanism's key (one key per defect), everything else under the clause's key"""
+    out, memo = [], {}
+    for code, idx in codes:
+        key = KEYS[code]
+        if code in (33, 34) and not c.get('O'):
+            if idx not in memo:
+                memo[idx] = classify_nesting(env, c, ct, fr, pc, rs, prec, r['nodes'], idx)
+            if memo[idx]:
+                key = NEST + memo[idx]
+        if (key, idx) not in out:
+            out.append((key, idx))
+    return out
+
+
 class Env:
     pass
 
